@@ -12,11 +12,20 @@ package main
 //	  wait for the child to die / finish                  observe everything over IMAP
 //	  run the check child, compare
 //
-// Verdict per fault run: restart view == before or == after (whole account: LIST, LSUB, UIDVALIDITY,
-// UIDNEXT, UIDs, flags, exact bytes modulo the X-Pm-Gluon-Id line); no message that cannot be fetched;
+// Verdict per fault run: restart view == before or == after (the WHOLE account as one state: LIST, LSUB, UIDVALIDITY,
+// UIDNEXT, UIDs, flags, exact bytes modulo the X-Pm-Gluon-Id line of EVERY message of EVERY mailbox - for RENAME
+// INBOX the before / after states are joint states of INBOX and the new mailbox); no message that cannot be fetched -
+// the connector serves no literal again (except in the `redownload` scenario), so the bytes must come from the cache;
 // no cache file without a row and no row marked deleted right after start-up. For injected errors
 // also the live view of the still running server. For APPEND an injected error may additionally leave the
-// message in "Recovered Messages" (what the model's failure handler says).
+// message in "Recovered Messages" (what the model's failure handler says). The recorded trace of every run with an
+// injected error goes to the Lean judge `judge-c07-fail` (Driver/DCrash.lean): what the operation does to the store
+// after the failed step must keep the store discipline (`handlerOk`, Theorems/C07 fail_listed_is_cached).
+//
+// The operations (o_crash_env.go c07Ops x instances 0..2) include, for every kind, variants on objects the server
+// ALREADY HAS: connector MessagesCreated naming known messages / duplicates in one batch (cknown), MessageUpdated of an
+// existing message (cupdated), COPY / MOVE onto a mailbox that holds the message (dupcopy), RENAME INBOX with and
+// without inferiors, RENAME / DELETE of mailboxes with messages and children (rename 2, rename2, delete, delete2).
 
 import (
 	"encoding/json"
@@ -82,6 +91,7 @@ func runC07Child(args []string) int {
 			out.Err = "restart failed: " + err.Error()
 			return 0
 		}
+		env.conn.serve = *op == "redownload"
 		if out.Audit, err = env.audit(); err != nil {
 			out.Err = "audit: " + err.Error()
 		}
@@ -107,6 +117,7 @@ func runC07Child(args []string) int {
 		}
 		_ = os.WriteFile(filepath.Join(*dir, "userid"), []byte(env.sys.UserID), 0o644)
 		env.seed, env.inst = *seed, *inst
+		env.conn.serve = *op == "redownload"
 		prefixOp := *op
 		if *op == "startup" {
 			prefixOp = "cdeleted"
@@ -577,6 +588,16 @@ func runC07Crash(args []string) int {
 			}
 			return a.Step < b.Step
 		})
+		// one entry per run (the view comparison and the trace judge may both object to the same run)
+		var merged []found
+		for _, f := range all {
+			if n := len(merged); n > 0 && merged[n-1].run == f.run {
+				merged[n-1].desc += "\n" + f.desc
+			} else {
+				merged = append(merged, f)
+			}
+		}
+		all = merged
 		nViol := map[string]int{}
 		for _, f := range all {
 			r := f.run
@@ -594,6 +615,13 @@ func runC07Crash(args []string) int {
 		}
 	}
 
+	// traces of the runs with an injected error, for the Lean judge `judge-c07-fail` (structural fact 3 of
+	// Theorems/C07: what the operation's error handler does to the store after the roll-back)
+	type failTrace struct {
+		run  c07Run
+		line string
+	}
+	var failTraces []failTrace
 	type job struct {
 		run c07Run
 		ref *c07Ref
@@ -608,6 +636,10 @@ func runC07Crash(args []string) int {
 				r := c07Exec(self, *seed, j.run, *keep)
 				viol, class := j.ref.judge(r)
 				mu.Lock()
+				if (j.run.Mode == "err" || j.run.Mode == "errhalf") && j.run.Op != "startup" && r.Out != nil && r.Out.Fired && len(r.Out.Steps) > 0 {
+					failTraces = append(failTraces, failTrace{j.run, fmt.Sprintf("judge-c07-fail %s %d %s %d => %s %s", j.run.Op, j.run.Inst, j.run.Mode, j.run.Step,
+						strings.Fields(r.Out.Outcome + " -")[0], strings.Join(r.Out.Steps, " "))})
+				}
 				res.Evaluations++
 				res.Stats["runs."+j.run.Mode]++
 				res.Stats["class."+j.run.Op+"."+class]++
@@ -707,6 +739,35 @@ func runC07Crash(args []string) int {
 	refWG.Wait()
 	close(jobs)
 	wg.Wait()
+	// the error handlers on the real traces, judged by the Lean model
+	if len(failTraces) > 0 {
+		sort.Slice(failTraces, func(i, j int) bool { return failTraces[i].line < failTraces[j].line })
+		lines := make([]string, len(failTraces))
+		for i, ft := range failTraces {
+			lines[i] = ft.line
+		}
+		if ans, err := leanJudge(lines); err != nil || len(ans) != len(lines) {
+			res.Stats["failjudge.skipped-no-model-driver"] = len(lines)
+		} else {
+			for i, a := range ans {
+				f := strings.Fields(a)
+				switch {
+				case strings.HasPrefix(a, "ok") && len(f) >= 3:
+					res.Stats["failjudge."+f[0]+"."+f[1]+"."+f[2]]++
+				case strings.HasPrefix(a, "ok"):
+					res.Stats["failjudge."+strings.Join(f, ".")]++
+				default:
+					res.Stats["failjudge.violation"]++
+					r := failTraces[i].run
+					stepName := "?"
+					if w := strings.Fields(lines[i]); r.Step+7 < len(w) {
+						stepName = w[r.Step+7]
+					}
+					report(r, fmt.Sprintf("%s at step %d (%s) of %q: property judge (judge-c07-fail) on the recorded trace: %s\n  trace: %s", r.Mode, r.Step, stepName, c07OpText(r.Op, r.Inst), a, lines[i]))
+				}
+			}
+		}
+	}
 	emit()
 	if *out != "" {
 		writeResult(*out, res)
